@@ -303,7 +303,108 @@ def ray_sources(index: RepoIndex, fn) -> list:
     return out
 
 
+def fan_targets(index: RepoIndex, rep, rule: str) -> None:
+    """the fan of compute_rays_fancy is aimed at the cell corners of *this* area as seen from
+    the origin: the two coordinate vectors handed to arctan2 (through meshgrid) denote
+    `ymin - 1/2 - p.y + k` (k = 0..height) and `xmin - 1/2 - p.x + k` (k = 0..width).  A
+    necessary condition of the coverage clause (which is otherwise floating-point geometry):
+    targets computed as if the area started at (0, 0) leave whole sectors of any other area
+    without a ray.  Unit-step vectors only: linspace(a, a + n - 1, num=n), arange."""
+    from fractions import Fraction
+    from ..affine import Aff, NonAffine, aff_of
+    f = index.func(RT, 'compute_rays_fancy')
+    from ..view import view
+    w = view(index, f)[1]
+    pp, ap = [a.arg for a in f.node.args.args[:2]]
+    S = Aff.sym
+    leaves = {f'{ap}.ymin': S('ymin'), f'{ap}.ymax': S('ymax'), f'{ap}.xmin': S('xmin'),
+              f'{ap}.xmax': S('xmax'), f'{ap}.height': S('ymax') - S('ymin') + 1,
+              f'{ap}.width': S('xmax') - S('xmin') + 1, f'{pp}.y': S('py'), f'{pp}.x': S('px'),
+              f'{ap}.ys[0]': S('ymin'), f'{ap}.ys[1]': S('ymax'), f'{ap}.xs[0]': S('xmin'),
+              f'{ap}.xs[1]': S('xmax'), f'{pp}.yx[0]': S('py'), f'{pp}.yx[1]': S('px')}
+
+    def leaf(e: ast.AST):
+        if isinstance(e, ast.Constant) and isinstance(e.value, float):
+            return Aff.const(Fraction(e.value).limit_denominator(1000))
+        return leaves.get(src(e))
+
+    def unit_vec(e: ast.AST, depth: int = 8):
+        """(first element, number of elements) of a vector with unit step"""
+        if depth < 0:
+            raise NonAffine(src(e))
+        if isinstance(e, ast.Name):
+            d = w.single_def(e.id)
+            if d is None or d[0] != 'value':
+                raise NonAffine(src(e))
+            return unit_vec(d[1], depth - 1)
+        if isinstance(e, ast.BinOp) and isinstance(e.op, (ast.Add, ast.Sub)):
+            try:
+                a0, n0 = unit_vec(e.left, depth - 1)
+                k = aff_of(e.right, leaf)
+                return (a0 + k if isinstance(e.op, ast.Add) else a0 - k), n0
+            except NonAffine:
+                if isinstance(e.op, ast.Add):
+                    a0, n0 = unit_vec(e.right, depth - 1)
+                    return a0 + aff_of(e.left, leaf), n0
+                raise
+        if isinstance(e, ast.Call) and src(e.func) in ('np.linspace', 'numpy.linspace'):
+            kw = {k.arg: k.value for k in e.keywords}
+            args = list(e.args)
+            num = kw.get('num', args[2] if len(args) > 2 else None)
+            if len(args) < 2 or num is None or set(kw) - {'num', 'endpoint', 'dtype'} or \
+                    ('endpoint' in kw and src(kw['endpoint']) != 'True'):
+                raise NonAffine(src(e))
+            a0, b0, n0 = aff_of(args[0], leaf), aff_of(args[1], leaf), aff_of(num, leaf)
+            if b0 - a0 != n0 - 1:
+                raise NonAffine(f'{src(e)}: not a unit step')
+            return a0, n0
+        if isinstance(e, ast.Call) and src(e.func) in ('np.arange', 'numpy.arange') and \
+                not e.keywords and 1 <= len(e.args) <= 2:
+            if len(e.args) == 1:
+                return Aff.const(0), aff_of(e.args[0], leaf)
+            a0, b0 = aff_of(e.args[0], leaf), aff_of(e.args[1], leaf)
+            return a0, b0 - a0
+        raise NonAffine(src(e))
+    atan = [n for n in ast.walk(view(index, f)[0]) if isinstance(n, ast.Call)
+            and src(n.func) in ('np.arctan2', 'numpy.arctan2', 'math.atan2') and len(n.args) == 2]
+    if len(atan) != 1:
+        rep.undecided(rule, f'{RT}:compute_rays_fancy', 'directions are not computed by one '
+                      'arctan2 over a grid of corner offsets')
+        return
+    grids = []
+    for a in atan[0].args:
+        d = None
+        if isinstance(a, ast.Name):
+            ds = w.defs.get(a.id, [])
+            d = ds[0] if len(ds) == 1 else None
+        if d is None or d[0] != 'unpack' or not (
+                isinstance(d[1][0], ast.Call) and
+                src(d[1][0].func) in ('np.meshgrid', 'numpy.meshgrid') and
+                len(d[1][0].args) == 2 and not d[1][0].keywords):
+            raise AnalysisError('compute_rays_fancy: arctan2 is not applied to the two grids of '
+                                'one np.meshgrid(ys, xs)')
+        grids.append(d[1][0].args[d[1][1]])
+    try:
+        (y0, ny), (x0, nx) = unit_vec(grids[0]), unit_vec(grids[1])
+    except NonAffine as ex:
+        raise AnalysisError(f'compute_rays_fancy: corner offsets `{ex}` are not unit-step '
+                            f'vectors the rule reads')
+    half = Aff.const(Fraction(1, 2))
+    want = ((S('ymin') - half - S('py'), S('ymax') - S('ymin') + 2),
+            (S('xmin') - half - S('px'), S('xmax') - S('xmin') + 2))
+    for axis, got, exp in (('rows', (y0, ny), want[0]), ('columns', (x0, nx), want[1])):
+        rep.check(got == exp, rule, RT, 'compute_rays_fancy', f.node.lineno,
+                  f'{axis}: first {got[0]}, count {got[1]}',
+                  f'the {axis} of the corner grid start at {got[0]} ({got[1]} values); the cell '
+                  f'corners of the area relative to the origin start at {exp[0]} ({exp[1]} '
+                  f'values): for an area that does not start where the code assumes, sectors of '
+                  f'the area get no ray', f'fan targets {axis}')
+
+
 def run(index: RepoIndex, rep) -> None:
+    rep.rule('C19.R6', 'the fan of compute_rays_fancy is aimed at the cell corners of the area '
+             'relative to the origin (necessary for coverage)', floor=1)
+    fan_targets(index, rep, 'C19.R6')
     rep.rule('C19.R5', 'ray samples keep the row and the column coordinate apart (axis typing, E14)', floor=1)
     from ..axes import axis_rule
     axis_rule(index, rep, 'C19.R5', ('gym_gridverse/utils/raytracing.py',), floor=4)
